@@ -388,6 +388,20 @@ def r5_breadth_first(ctx: Context) -> None:
     ctx.check("self.breadth_first()" in norm(it), "C17.R5", "Graph.__iter__|breadth-first", loc(it), "ok", "iteration order changed")
 
 
+def r5b_bfs_dependency_on_start(ctx: Context) -> None:
+    ctx.rule("C17.R5b", "breadth_first(start): a child waits only for those of its parents that depend on the START node "
+                        "(`are_dependent(<start parameter>, parent)`), not on the node currently expanded")
+    fn = method(_graph_cls(ctx), "breadth_first")
+    start = fn.args.args[1].arg if len(fn.args.args) > 1 else None
+    calls = [c for c in calls_in(fn, "are_dependent")]
+    ctx.floor("C17.R5b", "are_dependent calls in breadth_first", len(calls), 1)
+    for c in calls:
+        ok = len(c.args) == 2 and start in (norm(c.args[0]), norm(c.args[1]))
+        ctx.check(ok, "C17.R5b", f"Graph.breadth_first|`{norm(c)[:50]}` relates a parent to the start node", loc(c), f"are_dependent({start}, parent)",
+                  f"`{norm(c)[:60]}` does not involve the start node `{start}`: a join below the start is yielded once per incoming branch, "
+                  "possibly before one of its parents")
+
+
 def r6_weights_in_one_unit(ctx: Context) -> None:
     ctx.rule("C17.R6", "every weight function handed to get_longest_path that reads an EventTime converts it to one unit first "
                        "(`.to(EventTime.Unit.X).time`): a bare `.time` compares runtimes of different units as plain numbers and the "
@@ -477,11 +491,34 @@ def r7_adjacency_maps_in_step(ctx: Context) -> None:
     ctx.floor("C17.R7", "mutations of the adjacency maps", n_mut, 6)
 
 
+def cache_coherence(ctx: Context, rule: str, classes, why: str, min_classes: int = 1) -> None:
+    """Shared rule: memoised values are dropped by every method that changes what they were computed from (sa/cachecoh.py)."""
+    from .. import cachecoh
+    ctx.rule(rule, f"cache coherence over {', '.join(classes)}: every memoised value (cached_property / lru_cache / lazy memo field / "
+                   f"memo table) is reset, on every path, by each method of the class family that writes a field the value was "
+                   f"computed from ({why})")
+    facts, bad = cachecoh.incoherent(ctx.repo, list(classes))
+    ctx.floor(rule, "classes analysed for cache coherence", len(facts), min_classes)
+    n_caches = 0
+    for rel, cls, caches in facts:
+        for c in caches:
+            n_caches += 1
+            culprits = [(k, fn, hit) for (_r, c2, k, fn, hit) in bad if c2 is c]
+            ctx.check(not culprits, rule, f"{rel}::{cls.name}.{c.name}|cached value dropped by every mutator of {sorted(c.deps)[:4]}", f"{rel}:{c.fn.lineno}",
+                      f"{c.kind} cache, coherent",
+                      f"{cls.name}.{c.name} is memoised ({c.kind}) from {sorted(c.deps)[:5]} but "
+                      f"{', '.join(sorted(set(f'{k.name}.{fn.name}' for k, fn, _h in culprits)))[:200]} change(s) those fields without dropping it: "
+                      "after a query, a later change of the object is not reflected in the answer")
+    ctx.count("caches_examined", n_caches)
+
+
 def run(ctx: Context) -> None:
     ctx.isolate(r1_worklist)
     ctx.isolate(r2_topological_sort)
     ctx.isolate(r3_longest_path)
     ctx.isolate(r4_depth_and_dependency)
     ctx.isolate(r5_breadth_first)
+    ctx.isolate(r5b_bfs_dependency_on_start)
     ctx.isolate(r6_weights_in_one_unit)
     ctx.isolate(r7_adjacency_maps_in_step)
+    ctx.isolate(cache_coherence, "C17.R8", ("Graph", "TaskGraph", "JobGraph"), "orders, depths, paths and critical-path runtimes are answers about the current graph", 3)
